@@ -765,9 +765,11 @@ class C20:
                     w.probe('spent_flag_derived_from_complete_history')
         ids = [t.txid for t in ret if is_tx(t)]
         self.check_cache_part_after(srv, address, kw.get('after_txid'), ids[:n_cache])
-        if len(set(ids)) != len(ids) and not self.poisoned() and n_cache and te and self.layer == 'http':
-            # the real clients can return transactions at or before the `after_txid` they were asked to continue from
-            # (they stop paging on their own terms): the overlap is then in the provider's answer, not the service's doing
+        if len(set(ids)) != len(ids) and not self.poisoned() and n_cache and te and len(te[-1]['args']) > 1 and \
+                te[-1]['args'][1] == ids[n_cache - 1]:
+            # The service asked the provider to continue after the last cached transaction, as it should.  A provider
+            # that does not know that transaction (lagging view) or stops paging on its own terms (the real clients)
+            # answers with transactions at or before it: the overlap is in the provider's answer, not the service's doing.
             pos = {}
             for c in self.chain.txs.values():
                 pos[c.txid] = (c.height if c.height is not None else 10 ** 9, c.index or 0, c.arrival)
